@@ -3,6 +3,7 @@
  * captured stdout for the sentinel's expected line and exits. */
 static int g_out_rd = -1;
 static const char* g_expect;
+static const char* g_expect_token = "";     /* payload token that any rendering of the valid datagram contains */
 static int g_listen_fd = -1;
 
 static void finish_mainloop(void)
@@ -13,7 +14,15 @@ static void finish_mainloop(void)
     int fl = fcntl(g_out_rd, F_GETFL); fcntl(g_out_rd, F_SETFL, fl | O_NONBLOCK);
     while ((k = read(g_out_rd, buf + n, sizeof buf - 1 - n)) > 0) n += (size_t)k;
     buf[n] = 0;
-    /* the sentinel line must be the last thing printed */
+    if (g_learn_fd >= 0) {      /* reference run: hand the text this listener prints for the valid datagram to the driver */
+        int tok = 0; size_t tl = strlen(g_expect_token);
+        for (size_t i = 0; i + tl <= n; i++) if (memcmp(buf + i, g_expect_token, tl) == 0) tok = 1;
+        if (!tok) _exit(EX_SENTINEL);
+        if (write(g_learn_fd, buf, n > 2000 ? 2000 : n)) {}
+        _exit(EX_OK);
+    }
+    if (g_cur_mode < 8 && g_ref_out[g_cur_mode][g_cur_variant][0]) g_expect = g_ref_out[g_cur_mode][g_cur_variant];
+    /* the sentinel's text must appear in what was printed after the hostile sequence */
     size_t el = strlen(g_expect);
     int ok = 0;
     for (size_t i = 0; i + el <= n; i++) if (memcmp(buf + i, g_expect, el) == 0) ok = 1;
